@@ -32,6 +32,19 @@ theorem advance_total (bufs : List (List Byte)) (n : Nat) (h : n ≤ total bufs)
   rw [total_eq_flatten_length, advance_flatten bufs n h, total_eq_flatten_length]
   simp
 
+/-- what `advance_slices` leaves never starts with an empty slice: if bytes remain, so do slices with bytes -/
+theorem advance_tidy (bufs : List (List Byte)) (n : Nat) : total (advance bufs n) = 0 → advance bufs n = [] := by
+  induction bufs generalizing n with
+  | nil => intro _; rfl
+  | cons b bs ih =>
+    simp only [advance]
+    split
+    · exact ih _
+    · next hlt =>
+      intro h0
+      simp [total, List.sum_cons] at h0
+      omega
+
 /-- **whatever the transport accepts, what reached it is a prefix of the batch's bytes, and if
     `write_all_vectored` returns Ok it is all of them — nothing duplicated, dropped or reordered** -/
 theorem writeAll_prefix (bufs : List (List Byte)) (accepts : List Nat) :
@@ -39,61 +52,77 @@ theorem writeAll_prefix (bufs : List (List Byte)) (accepts : List Nat) :
       ((writeAll bufs accepts).2 = .done → (writeAll bufs accepts).1 = bufs.flatten) := by
   induction accepts generalizing bufs with
   | nil =>
-    simp only [writeAll]
-    split
-    · next h0 =>
-      refine ⟨0, by simp, fun _ => ?_⟩
-      rw [total_eq_flatten_length] at h0
-      exact (List.length_eq_zero_iff.mp h0).symm
-    · exact ⟨0, by simp, fun h => by cases h⟩
+    cases bufs with
+    | nil => exact ⟨0, by simp [writeAll], fun _ => by simp [writeAll]⟩
+    | cons b bs => exact ⟨0, by simp [writeAll], fun h => by simp [writeAll] at h⟩
   | cons a as ih =>
-    simp only [writeAll]
-    split
-    · next h0 =>
-      refine ⟨0, by simp, fun _ => ?_⟩
-      rw [total_eq_flatten_length] at h0
-      exact (List.length_eq_zero_iff.mp h0).symm
-    · split
+    cases bufs with
+    | nil => exact ⟨0, by simp [writeAll], fun _ => by simp [writeAll]⟩
+    | cons b bs =>
+      simp only [writeAll]
+      split
       · exact ⟨0, by simp, fun h => by cases h⟩
-      · next hne ha =>
-        have hle : min a (total bufs) ≤ total bufs := Nat.min_le_right _ _
-        obtain ⟨k, hk, hdone⟩ := ih (advance bufs (min a (total bufs)))
+      · have hle : min a (total (b :: bs)) ≤ total (b :: bs) := Nat.min_le_right _ _
+        obtain ⟨k, hk, hdone⟩ := ih (advance (b :: bs) (min a (total (b :: bs))))
         simp only
         rw [advance_flatten _ _ hle] at hk hdone
-        refine ⟨min a (total bufs) + k, ?_, ?_⟩
+        refine ⟨min a (total (b :: bs)) + k, ?_, ?_⟩
         · rw [hk, ← List.take_add]
         · intro hd
           rw [hdone hd, List.take_append_drop]
 
-/-- a transport that keeps accepting at least one byte finishes within `total` calls -/
+/-- a transport that keeps accepting at least one byte finishes within `total` calls (for slice lists that, like
+    every batch laid out by `prepare_iovs`, do not consist of empty slices only) -/
 theorem writeAll_terminates (bufs : List (List Byte)) (accepts : List Nat)
-    (hpos : ∀ a ∈ accepts, 1 ≤ a) (hlen : total bufs ≤ accepts.length) :
+    (hpos : ∀ a ∈ accepts, 1 ≤ a) (hlen : total bufs ≤ accepts.length) (htidy : total bufs = 0 → bufs = []) :
     (writeAll bufs accepts).2 = .done := by
   induction accepts generalizing bufs with
   | nil =>
-    simp only [writeAll]
     have : total bufs = 0 := by simpa using hlen
-    simp [this]
+    rw [htidy this]; simp [writeAll]
   | cons a as ih =>
-    simp only [writeAll]
-    split
-    · rfl
-    · next hne =>
+    cases bufs with
+    | nil => simp [writeAll]
+    | cons b bs =>
       have ha : 1 ≤ a := hpos a List.mem_cons_self
-      have ha0 : a ≠ 0 := by omega
-      simp only [ha0, if_false]
+      have ht : 0 < total (b :: bs) := by
+        rcases Nat.eq_zero_or_pos (total (b :: bs)) with h | h
+        · exact absurd (htidy h) (by simp)
+        · exact h
+      have hn : min a (total (b :: bs)) ≠ 0 := by
+        have : 1 ≤ min a (total (b :: bs)) := by rw [Nat.le_min]; exact ⟨ha, ht⟩
+        omega
+      simp only [writeAll, hn, if_false]
       apply ih
       · intro x hx; exact hpos x (List.mem_cons_of_mem _ hx)
       · rw [advance_total _ _ (Nat.min_le_right _ _)]
         simp only [List.length_cons] at hlen
-        have : 1 ≤ min a (total bufs) := by
-          rw [Nat.le_min]; exact ⟨ha, by omega⟩
         omega
+      · exact advance_tidy _ _
 
 /-- a transport that accepts 0 bytes is reported as closed and nothing more is written -/
 theorem writeAll_zero_closes (bufs : List (List Byte)) (as : List Nat) (h : total bufs ≠ 0) :
     writeAll bufs (0 :: as) = ([], .closed) := by
-  simp [writeAll, h]
+  cases bufs with
+  | nil => simp [total] at h
+  | cons b bs => simp [writeAll]
+
+/-- every batch `prepare_iovs` lays out starts with a non-empty header, so it has bytes whenever it has slices -/
+theorem iovs_tidy (batch : List OutFrame) (hh : ∀ f ∈ batch, f.header ≠ []) :
+    total (batch.flatMap iovs) = 0 → batch.flatMap iovs = [] := by
+  cases batch with
+  | nil => intro _; rfl
+  | cons f fs =>
+    intro h0
+    have hne := hh f List.mem_cons_self
+    have : 0 < total ((f :: fs).flatMap iovs) := by
+      simp only [List.flatMap_cons, total, List.map_append, List.sum_append]
+      have : 0 < ((iovs f).map List.length).sum := by
+        unfold iovs
+        have hl : 0 < f.header.length := List.length_pos_iff.mpr hne
+        split <;> simp [List.sum_cons] <;> omega
+      omega
+    omega
 
 /-- `prepare_iovs` layout: the slices of a batch concatenate to the frames' renderings, in queue order,
     and a batch of `n` frames uses at most `3 n` slices -/
